@@ -6,6 +6,7 @@ stateless explorer enumerates (fair round-robin default, deviation bound d, all 
 completion) and every execution is judged against the exact optimum."""
 import warnings
 from fractions import Fraction as F
+from itertools import product
 
 import numpy as np
 
@@ -47,6 +48,33 @@ def spec_items(tier):
     inits3 = [((0, F(1)),), ((1, F(1, 4)), (2, F(3, 4)))]
     yield from build.proper_mdps(2, [F(9, 10), F(1)], rb, inits2)
     yield from (it for it in build.edge_mdps() if it[1] == 5)      # three-outcome fans
+    # deterministic n=3 MDPs with costs {-2,-5}: exact ties under the zero heuristic between an explored and an unexplored action
+    yield from build.proper_mdps(3, [F(1)], lambda g: [F(-2), F(-5)], [((0, F(1)),)], dist_level=0, reduce_pairs=True,
+                                 goal_opts=[(('a', ((2, F(1)),), F(0)),)])
+    # stochastic start into S or T; S ties (under the zero heuristic) an explored exit with a detour through U, which is
+    # reachable through that detour only
+    for x, y, z in product((-2, -1), (-2, -1), (-5, -1)):
+        for p1 in (F(1, 2), F(1, 4)):
+            for g in (F(9, 10), F(1)):
+                T = ((('a', ((1, p1), (2, 1 - p1)), F(-1)),),
+                     (('a', ((4, F(1)),), F(x)), ('b', ((3, F(1)),), F(y))),
+                     (('a', ((4, F(1)),), F(-1)),),
+                     (('a', ((4, F(1)),), F(z)),),
+                     (('a', ((4, F(1)),), F(0)),))
+                yield ('mdp', 5, T, (4,), ((0, F(1)),), g)
+    # huge costs with a slowly leaking self-loop: values of -8e6 (the residual test must stay absolute)
+    for g in (F(1),):
+        T = ((('a', ((0, F(7, 8)), (1, F(1, 8))), F(-10 ** 6)),), (('a', ((1, F(1)),), F(0)),))
+        yield ('mdp', 2, T, (1,), ((0, F(1)),), g)
+    # fans with large costs (discounting changes which action is best at the middle states)
+    one = F(1)
+    for c0, c1 in ((-20, -20), (-30, -29), (-10, -10)):
+        T = ((('a', ((1, F(1, 4)), (2, F(1, 4)), (3, F(1, 2))), F(-1)), ('b', ((4, one),), F(-60))),
+             (('a', ((4, one),), F(c0)),),
+             (('a', ((4, one),), F(c1)), ('b', ((1, one),), F(-1))),
+             (('a', ((4, one),), F(-3)),),
+             (('a', ((4, one),), F(0)),))
+        yield ('mdp', 5, T, (4,), ((0, one),), F(9, 10))
     if tier == 'quick':
         yield from build.proper_mdps(3, [F(1)], lambda g: [F(-1)], inits3, reduce_pairs=True,
                                      goal_opts=[(('a', ((2, F(1)),), F(0)),)])
@@ -95,14 +123,15 @@ def check(item, tier):
     V, Q = refmdp.optimal(spec)
     with warnings.catch_warnings():
         warnings.simplefilter('ignore')
-        mdp = build.SpecMDP(spec, SLAB[li], ALAB[li])
+        mdp = build.SpecMDP(spec, SLAB[li], ALAB[li], dist_kind=['dict', 'uniform', 'det'][(li + rao_i) % 3])
         sl = mdp.sl
         init_support = [s for s, p in spec.init.items() if p > 0]
         sibling = build.SpecMDP(Spec(spec_item[:3] + (tuple(sorted(set(spec_item[3]) | {max(spec.n - 2, 0)})),) + spec_item[4:]),
                                 SLAB[li], ALAB[li])
         for hk in HEUR:
             h = make_heuristic(hk, spec, V, mdp)
-            for margin in MARGINS:
+            big = spec.min_reward() <= -10 ** 5       # huge value magnitudes: real seeds only, with a tiny margin as well
+            for margin in (MARGINS + [1e-6] if big else MARGINS):
                 rao = bool(rao_i) if margin == MARGINS[0] else not bool(rao_i)
                 ctx = {'heuristic': hk, 'margin': margin, 'randomize_action_order': rao}
                 lviol = []
@@ -219,6 +248,16 @@ def check(item, tier):
                     fps[tuple(e.devs())] = fp
                     r.outcome((spec_item, hk, margin, rao, fp))
 
+                if big:
+                    # thousands of backups are needed before a 1e-6 margin holds at values of 1e7: not explored, replayed for real seeds
+                    for seed in (0, 1, 2, 3):
+                        del lviol[:]
+                        real = body(None, seed=seed)
+                        judge(real, ['real seed', seed])
+                        r.count('executions')
+                        r.count('states')
+                        r.count('transitions')
+                    continue
                 with patched_random(ex):
                     ex.explore(body, on_exec)
                 r.count('states', ex.states)
